@@ -69,14 +69,17 @@ Definition good_C11 (things out : list ritem) : bool :=
   perm_ok things out && (if acyclic things then topo_ok out else true).
 
 (* ---- which references the collectors of the unchanged tree can see ---- *)
-(* identifiers get_dependencies_from_type looks up: Simple / Generic ids under Vec, array, slice,
-   Option, HashMap nesting, and the outermost id of each argument of a Generic whose own id is a known item *)
-Fixpoint visible_idents (known : str -> bool) (t : rtype) : list str :=
+(* identifiers get_dependencies_from_type looks up while it collects for the item named [own]:
+   Simple / Generic ids under Vec, array, slice, Option, HashMap nesting, and the outermost id of
+   each argument of a Generic whose own id is a known item OTHER than [own] (the item's name sits in
+   the `seen` set for the whole collection, so `seen.insert(id)` fails for a Generic named like the
+   item itself and its arguments are never looked at: struct Foo<T> { f: Foo<Bar> } misses Bar) *)
+Fixpoint visible_idents (known : str -> bool) (own : str) (t : rtype) : list str :=
   match t with
   | RSimple id => [id]
-  | RGeneric id ps => id :: (if known id then map rtype_id ps else [])
-  | RVec x | ROption x | RArray x _ | RSlice x => visible_idents known x
-  | RHashMap k v => visible_idents known k ++ visible_idents known v
+  | RGeneric id ps => id :: (if known id && negb (str_eqb id own) then map rtype_id ps else [])
+  | RVec x | ROption x | RArray x _ | RSlice x => visible_idents known own x
+  | RHashMap k v => visible_idents known own k ++ visible_idents known own v
   | RPrim _ => []
   end.
 
@@ -93,7 +96,8 @@ Definition is_known (things : list ritem) (n : str) : bool :=
 
 (* the edge a -> b is one the collectors record: a visible identifier equals b's ORIGINAL name *)
 Definition edge_visible (things : list ritem) (a b : ritem) : bool :=
-  mem_str (original (item_id b)) (flat_map (visible_idents (is_known things)) (visible_types a)).
+  mem_str (original (item_id b))
+          (flat_map (visible_idents (is_known things) (original (item_id a))) (visible_types a)).
 
 Definition has_dup_names (things : list ritem) : bool :=
   existsb (fun a => negb (Nat.eqb (List.length (filter (fun b => str_eqb (original (item_id a)) (original (item_id b))) things)) 1)) things.
@@ -121,6 +125,17 @@ Definition edge_class (a b : ritem) : option string :=
     else cls "C11-generic-arg-depth"
   end.
 
+(* classification of a recorded edge a -> b (a <> b) that is no reference of a at all.  The
+   collectors look names up without regard to what they denote: (1) a generic parameter of a struct
+   that is named like item b (struct A<T> { f: T } next to struct T); (2) the id() of a special type
+   standing as a direct argument of a typeshared generic - "Vec", "Option", "HashMap", "[]", "&[]",
+   "String", "u8", ... - when an item b carries that name.  Such a phantom edge can close a cycle the
+   references do not have; toposort_impl's cycle `return` then emits a definition before one it
+   refers to although the reference graph is acyclic. *)
+Definition phantom_class (a b : ritem) : option string :=
+  if mem_str (original (item_id b)) (item_generics a) then cls "C11-generic-param-shadow"
+  else cls "C11-special-id-collision".
+
 Definition known_C11 (things : list ritem) : option string :=
   if has_dup_names things then cls "C11-duplicate-names"
   else if alias_generic_shadows things then cls "C11-alias-generic-shadow"
@@ -128,5 +143,8 @@ Definition known_C11 (things : list ritem) : option string :=
     (fix scan (pairs : list (ritem * ritem)) : option string :=
        match pairs with
        | [] => None
-       | (a, b) :: r => if refers a b && negb (edge_visible things a b) then edge_class a b else scan r
+       | (a, b) :: r =>
+         if refers a b && negb (edge_visible things a b) then edge_class a b
+         else if edge_visible things a b && negb (same_item a b) && negb (refers a b) then phantom_class a b
+         else scan r
        end) (list_prod things things).
